@@ -775,6 +775,10 @@ fn mock_variant<V: Variant>(ctx: &Ctx, rep: &mut Report)
 where
     V::H: DeserializeOwned,
 {
+    if ctx.scale < 0.2 && V::INDEX as u64 % 5 != ctx.shard % 5 {
+        // reduced (interpreter) runs: one variant per shard
+        return;
+    }
     let n = ctx.n(1_500, 100_000);
     for i in 0..n {
         let mut rng = ctx.rng("c16-mock", (V::INDEX as u64) << 48 | i);
@@ -802,6 +806,7 @@ pub fn run_mock(ctx: &Ctx, rep: &mut Report) {
     rep.rule = "a scripted mock Deserializer: is_human_readable in {true,false} x 18 visitor events (str / borrowed str / string / bytes / borrowed bytes / byte_buf / integers / float / bool / char / unit / none / some / newtype / seq of u8 / map) x 9 payload classes (valid text, bare lower-case text, valid bytes, strict-invalid checksum bytes, strict-invalid length bytes, strict-invalid text, wrong length, bad digit, non-UTF-8) x 5 variants, every call under catch_unwind: the matching event class must agree exactly with the matching parser, other spellings may only be rejected or accepted as what a parser makes of the payload, wrong types must be errors; plus a mock Serializer recording what is emitted for both is_human_readable values; distinct by fingerprint of the payload".into();
     all_variants!(mock_variant, ctx, rep);
     rep.set_floor("cells", (2 * 18 * PAYLOAD_KINDS.len()) as u64);
+    let _ = buffered();
     rep.floor("mock:matching:accepted", 10);
     rep.floor("mock:matching:rejected", 10);
     rep.floor("mock:wrong-type:rejected", 10);
